@@ -18,9 +18,16 @@ Rec == ndJsonDeserialize(IOEnv.TRACE)
 VARIABLES l, nviol, cnt
 Bump(c, k) == [x \in DOMAIN c \cup {k} |-> (IF x \in DOMAIN c THEN c[x] ELSE 0) + (IF x = k THEN 1 ELSE 0)]
 Init == l = 1 /\ nviol = 0 /\ cnt = [x \in {} |-> 0]
+\* consumers whose destination is a BytesMut (C04: its region stays in bounds and exclusive)
+BMConsumers == {"bytesmut_put", "bytesmut_put_split", "bytesmut_put_keep", "bytesmut_put_keep_arc", "bytesmut_extend_iter", "bytesmut_from_iter",
+                "bytesmut_extend_iter_panic", "bytesmut_extend_iter_panic_off", "bytesmut_extend_iter_panic_arc"}
+\* an out-of-bounds access, a wrong / double free or a crash is a C02 violation whoever provoked it
+\* with safe code; for a BytesMut destination it is a C04 violation as well
+Mem(e, law) == {<<"C17", law>>, <<"C02", law>>} \cup (IF e.consumer \in BMConsumers THEN {<<"C04", law>>} ELSE {})
 Laws(e) ==
-  (IF e.out \notin {"ok", "panic"} \/ ~e.clean \/ ~e.consistent THEN {<<"C17", "hostile_safe">>} ELSE {})
-  \cup (IF e.bad_mem # 0 \/ ~e.guard THEN {<<"C17", "no_guard_damage">>} ELSE {})
+  (IF e.out \notin {"ok", "panic"} \/ ~e.clean THEN Mem(e, "hostile_safe") ELSE {})
+  \cup (IF ~e.consistent THEN {<<"C17", "hostile_safe">>} ELSE {})
+  \cup (IF e.bad_mem # 0 \/ ~e.guard THEN Mem(e, "no_guard_damage") ELSE {})
   \cup (IF e.out \in {"ok", "panic"} /\ e.live # 0 THEN {<<"C17", "ledger_empty_at_end">>} ELSE {})
 Next ==
   /\ l <= Len(Rec)
